@@ -209,7 +209,7 @@ def write_if_changed(path, content):
     return False
 
 def all_plugins():
-    names = sorted(os.path.basename(p)[:-3] for p in glob.glob(os.path.join(VERIF, 'props', 'c[0-9]*.py')))
+    names = sorted(os.path.basename(p)[:-3] for p in glob.glob(os.path.join(VERIF, 'props', 'c[0-9][0-9].py')))
     return [importlib.import_module('props.' + n) for n in names]
 
 def stage_generate(plugins):
